@@ -15,7 +15,7 @@ for r in rows:
     meta = {}
     try: meta = json.load(open(f'/verif/seeded/{name}/meta.json'))
     except Exception: pass
-    origin = 'sub-agent wave 22 (pull requests aimed at the verifier\'s blind spots)' if 'subagent22' in name else 'sub-agent wave 20 (maintenance pull requests, second half)' if 'subagent20' in name else 'sub-agent wave 19 (maintenance pull requests)' if 'subagent19' in name else 'sub-agent wave 18 (two dimensions meeting, third round)' if 'subagent18' in name else 'sub-agent wave 17 (two dimensions meeting, second round)' if 'subagent17' in name else 'sub-agent wave 16 (two dimensions meeting)' if 'subagent16' in name else 'sub-agent wave 15 (blind spots, second half)' if 'subagent15' in name else 'sub-agent wave 14 (blind spots)' if 'subagent14' in name else 'sub-agent wave 12 (only at scale)' if 'subagent12' in name else 'sub-agent wave 10 (wrong only in context)' if 'subagent10' in name else 'sub-agent wave 9 (deep histories)' if 'subagent9' in name else 'refactor meant to be benign (wave 8), found broken' if 'refactor8' in name else 'sub-agent wave 7 (narrow input classes)' if 'subagent7' in name else 'sub-agent wave 6 (conjunctions)' if 'subagent6' in name else 'sub-agent wave 5' if 'subagent5' in name else 'sub-agent wave 1' if name.endswith('subagent1') else 'sub-agent wave 2' if 'subagent2' in name else 'sub-agent wave 3 (scale)' if 'subagent3' in name else 'own (DESIGN §2 mutant list)'
+    origin = 'sub-agent wave 23 (blind-spot pull requests, second half)' if 'subagent23' in name else 'sub-agent wave 22 (pull requests aimed at the verifier\'s blind spots)' if 'subagent22' in name else 'sub-agent wave 20 (maintenance pull requests, second half)' if 'subagent20' in name else 'sub-agent wave 19 (maintenance pull requests)' if 'subagent19' in name else 'sub-agent wave 18 (two dimensions meeting, third round)' if 'subagent18' in name else 'sub-agent wave 17 (two dimensions meeting, second round)' if 'subagent17' in name else 'sub-agent wave 16 (two dimensions meeting)' if 'subagent16' in name else 'sub-agent wave 15 (blind spots, second half)' if 'subagent15' in name else 'sub-agent wave 14 (blind spots)' if 'subagent14' in name else 'sub-agent wave 12 (only at scale)' if 'subagent12' in name else 'sub-agent wave 10 (wrong only in context)' if 'subagent10' in name else 'sub-agent wave 9 (deep histories)' if 'subagent9' in name else 'refactor meant to be benign (wave 8), found broken' if 'refactor8' in name else 'sub-agent wave 7 (narrow input classes)' if 'subagent7' in name else 'sub-agent wave 6 (conjunctions)' if 'subagent6' in name else 'sub-agent wave 5' if 'subagent5' in name else 'sub-agent wave 1' if name.endswith('subagent1') else 'sub-agent wave 2' if 'subagent2' in name else 'sub-agent wave 3 (scale)' if 'subagent3' in name else 'own (DESIGN §2 mutant list)'
     need = (meta.get('needs_to_manifest') or meta.get('what') or '')
     if origin.startswith('own'): need = meta.get('what', '')
     cells = []
